@@ -2,8 +2,10 @@ package props
 
 import (
 	"bufio"
+	"bytes"
 	"fmt"
 	"io"
+	"reflect"
 	"sort"
 
 	gots "github.com/Comcast/gots/v2"
@@ -158,6 +160,19 @@ func c07Foreign(i, salt int) parties.Pkt {
 		pm := ref.PMTSpec{Program: 1, Version: i & 31, PCRPID: 0x31, Streams: []ref.ES{{Type: 0x1b, PID: 0x31}}}
 		return parties.Packetise(ref.Payload(0, [][]byte{pm.Section()}, 0), parties.Carrier{PID: 0x1000 + salt%7, CC: i, Styles: []string{"ff"}})[0]
 	}
+}
+
+// c07NilPAT: a nil interface, or an interface holding a nil pointer/slice/map.
+func c07NilPAT(p psi.PAT) bool {
+	if p == nil {
+		return true
+	}
+	v := reflect.ValueOf(p)
+	switch v.Kind() {
+	case reflect.Ptr, reflect.Slice, reflect.Map, reflect.Interface, reflect.Func, reflect.Chan:
+		return v.IsNil()
+	}
+	return false
 }
 
 func (c07) Exec(script interface{}, c *core.Ctx) {
@@ -447,6 +462,67 @@ func (c07) Exec(script interface{}, c *core.Ctx) {
 	c07Recheck(c, s, held, checkPAT)
 	if c.Failed() {
 		return
+	}
+	// a refused decode: whatever comes back beside the error, if it is a nil PAT (a nil interface
+	// or a nil value inside one), classifying a packet with it is an error like for any nil PAT
+	if s.Salt%4 == 1 {
+		var bad packet.Packet
+		bad[0], bad[1], bad[2] = 0x47, 0x40, 0x00
+		switch (s.Salt / 4) % 3 {
+		case 0: // adaptation field only
+			bad[3], bad[4], bad[5] = 0x20, 183, 0x00
+			for k := 6; k < 188; k++ {
+				bad[k] = 0xFF
+			}
+		case 1: // adaptation field running past the packet
+			bad[3], bad[4] = 0x30, 200
+		default: // five payload bytes
+			bad[3], bad[4], bad[5] = 0x30, 178, 0x00
+			for k := 6; k < 183; k++ {
+				bad[k] = 0xFF
+			}
+		}
+		var pk packet.Packet
+		pk[0], pk[1], pk[2], pk[3] = 0x47, 0x01, 0x00, 0x10
+		refused := func(what string, pr psi.PAT, perr error) bool {
+			if perr == nil {
+				return true // not refused: nothing to say here
+			}
+			c.Probe("refused_decode_result_used_as_pat")
+			if !c07NilPAT(pr) {
+				return true
+			}
+			var ierr error
+			if !c.Call("psi.IsPMT(result of refused "+what+")", func() { _, ierr = psi.IsPMT(&pk, pr) }) {
+				return false
+			}
+			if ierr == nil {
+				c.Fail("nil_pat", "nil_pat_from_refused_"+what+"_not_rejected", fmt.Sprintf("%T", pr), "an error (nil PAT)")
+				return false
+			}
+			return true
+		}
+		var pr psi.PAT
+		var perr error
+		st := append(append([]byte(nil), bad[:]...), patPkt[:]...)
+		if !c.Call("psi.ReadPAT(undecodable PID 0 packet first)", func() { pr, perr = psi.ReadPAT(bytes.NewReader(st)) }) {
+			return
+		}
+		if !refused("ReadPAT", pr, perr) {
+			return
+		}
+		if !c.Call("psi.NewPAT(undecodable packet)", func() { pr, perr = psi.NewPAT(append([]byte(nil), bad[:]...)) }) {
+			return
+		}
+		if !refused("NewPAT", pr, perr) {
+			return
+		}
+		if !c.Call("psi.NewPAT(12 bytes)", func() { pr, perr = psi.NewPAT(make([]byte, 12)) }) {
+			return
+		}
+		if !refused("NewPAT", pr, perr) {
+			return
+		}
 	}
 	// the caller re-uses one buffer for successive tables of the same size: what the
 	// library answers for the new table must not come from the previous one
